@@ -122,7 +122,8 @@ def configs(spec):
                    "retries": rng.choice(RETRIES + [2, 3, 3, rng.randrange(256)]),
                    "echo": True if rng.random() < 0.75 else rng.choice([False] + ECHO_KINDS),
                    "unlock": rng.random() < 0.8,
-                   "change": rng.random() < 0.2, "post": rng.choice(POST + ["signer"] * 6)}
+                   "change": rng.random() < 0.25, "post": rng.choice(POST + ["signer"] * 6),
+                   "newpin": rng.choice(["ok", "ok", "refused", "error", "unknown"])}
         if spec["tier"] == "quick":
             return
     prod = itertools.product(PLATFORMS, MODES, ONB, VERS_SMALL, VERS_SMALL, RETRIES,
@@ -133,8 +134,10 @@ def configs(spec):
         if mo != "boot" and (ui != VERS_SMALL[0] or rt != 3 or ec is not True or not ul or ch or
                              po != "signer"):
             continue    # those knobs are unobservable unless the bootloader path runs
-        yield {"platform": pl, "mode": mo, "onboarded": ob, "ui": ui, "signer": sg,
-               "retries": rt, "echo": ec, "unlock": ul, "change": ch, "post": po}
+        for npn in (["ok", "refused", "error"] if ch and mo == "boot" else ["ok"]):
+            yield {"platform": pl, "mode": mo, "onboarded": ob, "ui": ui, "signer": sg,
+                   "retries": rt, "echo": ec, "unlock": ul, "change": ch, "post": po,
+                   "newpin": npn}
 
 
 def make_device(c):
@@ -150,6 +153,9 @@ def make_device(c):
         cfg["mode"] = mode_byte(c["mode"])
     if c["post"] != "signer":
         cfg["post_exit_mode"] = mode_byte(c["post"])
+    if c.get("newpin") not in (None, "ok"):
+        # the device turns the new PIN down (invalid PIN / internal error)
+        cfg["newpin_sw"] = {"refused": 0x69A0, "error": 0x6A99, "unknown": 0x6F01}[c["newpin"]]
     dev = SimDevice(**cfg)
     if c["platform"] == "sgx":
         # SGX: "bootloader" <=> locked; other mode bytes are forced through the knob
